@@ -605,6 +605,7 @@ func (t *tXn) truncate(methods []string) {
 			nr[i].wildcardChildIndex = -1
 		}
 		t.root = nr
+		t.size = 0
 		return
 	}
 
@@ -617,6 +618,7 @@ func (t *tXn) truncate(methods []string) {
 		if idx < 0 {
 			continue
 		}
+		t.size -= len(getRouteConflict(nr[idx]))
 		if !isRemovable(method) {
 			nr[idx] = new(node)
 			nr[idx].key = commonVerbs[idx]
